@@ -27,7 +27,10 @@ FINISH = dict(
          "x every fault kind (each ACME error type once and ten times in a row, unknown / absent type, "
          "ill-typed problem member, non-JSON body, dropped connection, missing or invalid Replay-Nonce, "
          "missing Location, invalid / bogus / deactivated object status, missing fields, missing "
-         "certificate URL, non-PEM / truncated / other-key certificate body) x {no pair, matching pair "
+         "certificate URL, non-PEM / truncated / other-key certificate body; and issuances WITHOUT any protocol fault whose "
+         "end-entity certificate carries the CSR's key but a chosen subjectAltName set: a subset of the configured names, the "
+         "missing name only as subject CN, no extension at all, a name in another letter case, one name more, another order "
+         "— `cert-san-*`, mock CA option leaf_sans) x {no pair, matching pair "
          "installed} x kp_reuse; quick: seeded sample + corpus, thorough: the whole grid + random "
          "two-fault scripts. Files are snapshotted before the attempt and when the post-operation hook runs; "
          "Spec.C03.holds judges (initial, final, failed?); Model/Flow.attempt is run in lock-step on the answers "
@@ -138,13 +141,13 @@ def run(ctx):
     root = os.path.join(vlib.BUILD, "scratch", "c03-%d" % os.getpid())
     shutil.rmtree(root, ignore_errors=True)
     try:
-        g = flowgrid.grid()
+        g = flowgrid.grid(san=True)
         corpus = [c for c in vlib.corpus("C03")]
         if ctx.quick():
             ctx.rng.shuffle(g)
             # always include the historical witnesses, then a seeded sample
             # download faults in all four (pair, kp_reuse) combinations, and a finalize error, always
-            must = [s for s in flowgrid.grid() if s["fault"].startswith("cert-")
+            must = [s for s in flowgrid.grid(san=True) if s["fault"].startswith("cert-")
                     or (s["fault"] in ("err:badCSR", "drop") and s["pos"][0] == "finalize")
                     # redirections: a followed GET chain, and 3xx answers to the POSTs around the installation
                     or (s["fault"].startswith("redirect-") and s["pos"][0] in ("directory", "finalize", "cert")
@@ -154,7 +157,7 @@ def run(ctx):
         with concurrent.futures.ThreadPoolExecutor(max_workers=12) as ex:
             results = list(ex.map(lambda s: flowgrid.run_fault(s, root, helper), scs))
         judge(ctx, helper, results)
-        more_families(ctx, helper, root, len(scs), flowgrid.grid())
+        more_families(ctx, helper, root, len(scs), flowgrid.grid(san=True))
         if not ctx.quick():
             # random two-fault scripts
             twos = []
